@@ -212,26 +212,43 @@ func r157(c *Ctx, r *R) {
 	if f == nil {
 		return
 	}
+	// v is src asserted to a concrete type: src.(T), or the value of a
+	// bound type switch / comma-ok assertion
+	isSrcAssert := func(v ssa.Value) bool {
+		if ex, ok := v.(*ssa.Extract); ok && ex.Index == 0 {
+			v = ex.Tuple
+		}
+		ta, ok := v.(*ssa.TypeAssert)
+		return ok && paramIndex(f, ta.X) == 0
+	}
 	instrs(f, func(i ssa.Instruction) {
 		st, ok := i.(*ssa.Store)
 		if !ok {
 			return
 		}
 		// *dest.(*T) = v
-		ta, ok := st.Addr.(*ssa.TypeAssert)
+		addr := st.Addr
+		if ex, ok := addr.(*ssa.Extract); ok && ex.Index == 0 {
+			addr = ex.Tuple
+		}
+		ta, ok := addr.(*ssa.TypeAssert)
 		if !ok || paramIndex(f, ta.X) != 1 {
 			return
 		}
-		tname := ta.AssertedType.(*types.Pointer).Elem().String()
+		pt, ok := ta.AssertedType.(*types.Pointer)
+		if !ok {
+			return
+		}
+		tname := pt.Elem().String()
 		good, other := false, ""
 		for _, g := range guardsOf(st.Block()) {
 			switch x := g.Cond.(type) {
 			case *ssa.BinOp:
 				// the comparison that decides "is default": src.(T) OP const
 				var k ssa.Value
-				if sta, ok := x.X.(*ssa.TypeAssert); ok && paramIndex(f, sta.X) == 0 {
+				if isSrcAssert(x.X) {
 					k = x.Y
-				} else if sta, ok := x.Y.(*ssa.TypeAssert); ok && paramIndex(f, sta.X) == 0 {
+				} else if isSrcAssert(x.Y) {
 					k = x.X
 				} else {
 					continue
@@ -243,9 +260,9 @@ func r157(c *Ctx, r *R) {
 				} else {
 					other = x.Op.String()
 				}
-			case *ssa.TypeAssert:
+			default:
 				// bool: `if b` with b = src.(bool)
-				if paramIndex(f, x.X) == 0 && g.Branch {
+				if isSrcAssert(g.Cond) && g.Branch {
 					good = true
 				}
 			}
